@@ -409,8 +409,8 @@ Proof.
   - intros E; inversion E; subst; exact I3.
 Qed.
 
-Lemma status_acceptable s p status proposer prev_hash prev_vs :
-  ph_check s p = PHC status proposer prev_hash prev_vs ->
+Lemma status_acceptable s p status proposer prev_hash prev_vs view_vs :
+  ph_check s p = PHC status proposer prev_hash prev_vs view_vs ->
   (status =? PHCheckAlreadyHaveSignature) = false -> (status =? PHCheckSignerUnrecognized) = false ->
   (status =? PHCheckRoundTooOld) = false -> (status =? PHCheckRoundTooFarInFuture) = false ->
   (status =? PHCheckNextHeight) = false -> status = PHCheckAcceptable.
@@ -425,12 +425,13 @@ Qed.
 Lemma INV_handle_ph_loop ih ivs fuel : forall backfilled s p s' res,
   INV ih ivs s -> ph_bounded p -> handle_ph_loop fuel backfilled s p = Ok (s', res) -> INV ih ivs s'.
 Proof.
-  assert (Hbody : forall s p status proposer prev_hash prev_vs s' res,
+  assert (Hbody : forall s p status proposer prev_hash prev_vs view_vs s' res,
     INV ih ivs s -> ph_bounded p ->
-    ph_check s p = PHC status proposer prev_hash prev_vs -> status = PHCheckAcceptable ->
+    ph_check s p = PHC status proposer prev_hash prev_vs view_vs -> status = PHCheckAcceptable ->
     (let hd := ph_hdr p in
       if negb (hd_ok hd) then Ok (s, HandleProposedHeaderBadBlockHash)
       else if negb (vs_ok (hd_vals hd) && vs_ok (hd_next hd)) then Ok (s, HandleProposedHeaderBadBlockHash)
+      else if negb (valset_equal (hd_vals hd) view_vs) then Ok (s, HandleProposedHeaderBadBlockHash)
       else
         match proposer with
         | None => Ok (s, HandleProposedHeaderBadSignature)
@@ -461,19 +462,20 @@ Proof.
             else accept
         end) = Ok (s', res) ->
     INV ih ivs s').
-  { intros s p status proposer prev_hash prev_vs s' res H Hb Hc Hs. cbv zeta.
+  { intros s p status proposer prev_hash prev_vs view_vs s' res H Hb Hc Hs. cbv zeta.
     assert (Hsame : forall r0, Ok (s, r0) = Ok (s', res) -> INV ih ivs s')
       by (intros r0 E; inversion E; subst; exact H).
     destruct (hd_ok (ph_hdr p)) eqn:Hok; cbn [negb]; [|apply Hsame].
     destruct (vs_ok (hd_vals (ph_hdr p)) && vs_ok (hd_next (ph_hdr p))) eqn:Hvs; cbn [negb]; [|apply Hsame].
     apply andb_true_iff in Hvs as [_ Hnext].
+    destruct (valset_equal (hd_vals (ph_hdr p)) view_vs) eqn:Hveq; cbn [negb]; [|apply Hsame].
     destruct proposer as [key|]; [|apply Hsame].
     destruct (negb (verify_prop _ _ _ _)); [apply Hsame|].
     destruct (negb (hd_height (ph_hdr p) =? k_init_h s) && negb (bytes_eqb (hd_prev (ph_hdr p)) prev_hash)) eqn:Hprev; [apply Hsame|].
     destruct (negb (bytes_eqb (vs_pkh prev_vs) _)); [apply Hsame|].
     assert (Hfacts : accept_facts s p).
     { unfold accept_facts. repeat split; try assumption.
-      intros Hh Hne. destruct (ph_check_prev _ _ _ _ _ _ _ _ (proj1 H) Hc Hs Hh Hne) as (ch&Hch&Hph).
+      intros Hh Hne. destruct (ph_check_prev _ _ _ _ _ _ _ _ _ (proj1 H) Hc Hs Hh Hne) as (ch&Hch&Hph).
       exists ch. split; [exact Hch|].
       apply andb_false_iff in Hprev as [Hp|Hp].
       - apply negb_false_iff in Hp. apply N.eqb_eq in Hp. contradiction.
@@ -487,7 +489,7 @@ Proof.
     unfold bind at 1. destruct (byz_majority _); [|discriminate].
     destruct (_ <? _); [apply Hsame|exact Hacc]. }
   induction fuel as [|f IH]; intros backfilled s p s' res H Hb; cbn [handle_ph_loop];
-    destruct (ph_check s p) as [status proposer prev_hash prev_vs] eqn:Hc.
+    destruct (ph_check s p) as [status proposer prev_hash prev_vs view_vs] eqn:Hc.
   all: assert (Hsame : forall r0, Ok (s, r0) = Ok (s', res) -> INV ih ivs s')
          by (intros r0 E; inversion E; subst; exact H).
   all: destruct (status =? PHCheckAlreadyHaveSignature) eqn:S1; [apply Hsame|].
@@ -538,8 +540,7 @@ Proof.
   assert (S1 : sinv s1 /\ hinv ih ivs s1 /\ v_sum (k_vot s1) = v_sum (k_vot s)).
   { revert Hins. unfold replay_insert.
     destruct (existsb _ (v_phs _)); [intros E; inversion E; subst; split; [exact Hs|split; [exact Hh'|reflexivity]]|].
-    destruct (existsb _ (st_rounds s)); [discriminate|].
-    intros E; inversion E; subst. split; [exact Hs|split; [exact Hh'|reflexivity]]. }
+    destruct (existsb _ (st_rounds s)); intros E; inversion E; subst; (split; [exact Hs|split; [exact Hh'|reflexivity]]). }
   destruct S1 as (Ss1&Sh1&Esum).
   assert (I1 : INV ih ivs s1) by (split; [exact Hc1|]; split; [exact Ha1|]; split; assumption).
   destruct (pm_get temp (hd_hash hd)); [|intros E; inversion E; subst; exact I1].
